@@ -36,6 +36,7 @@ VARIANTS = {
     'tsan':   dict(cc='clang', cflags=['-O1', '-g', '-fno-omit-frame-pointer', '-fsanitize=thread'],
                    ldflags=['-fsanitize=thread']),
     'dbg':    dict(cc='gcc', cflags=['-O0', '-g'], ldflags=[]),
+    'dbg512': dict(cc='gcc', cflags=['-O0', '-g', '-march=native', '-DAVX512'], ldflags=[]),
     'cov':    dict(cc='gcc', cflags=['-O0', '-g', '--coverage'], ldflags=['--coverage']),
 }
 
